@@ -42,8 +42,11 @@ def models(nmax, menu):
 
 
 def check_model(lib, part, par, js, variant):
-    arm, tenarm = variant
-    jattr = 'armature="0.013"' if arm else ""
+    arm, tenarm = variant[:2]
+    simple = variant[2] if len(variant) > 2 else 0
+    n = len(par)
+    # distinct armature per body: an armature read through the wrong index (joint id vs dof id) must show
+    jattr = ['armature="%g"' % (0.013 * (i + 1)) for i in range(n)] if arm else ""
     sections = ""
     # fixed tendon over the first two scalar joints (if any) with armature
     scal = []
@@ -56,16 +59,25 @@ def check_model(lib, part, par, js, variant):
             return
         sections = ('<tendon><fixed name="t0" armature="0.021"><joint joint="%s" coef="1.3"/><joint joint="%s" coef="-0.7"/>'
                     '</fixed></tendon>\n' % (scal[0], scal[1]))
-    n = len(par)
-    xml = A.tree_mjcf(par, list(js), axis=[i % 3 for i in range(n)], anchor=[(i + 1) % 2 for i in range(n)],
-                      frame=[1 + i % 2 for i in range(n)], geom=[A.GEOM_ORDER[i % 5] for i in range(n)],
-                      jattr=jattr, sections=sections)
+    if simple:
+        # layout that the compiler classifies as "simple" (body_simple / dof_simplenum fast paths of mj_crb, mj_setM0,
+        # mj_factorM): inertial frame == body frame, joint at the body origin, axis-aligned joint axes
+        xml = A.tree_mjcf(par, list(js), axis=[i % 2 for i in range(n)], anchor=0,
+                          frame=[1 + i % 2 for i in range(n)], geom=["sphere", "box", "ellipsoid"][simple % 3],
+                          jattr=jattr, sections=sections, gpose="")
+    else:
+        xml = A.tree_mjcf(par, list(js), axis=[i % 3 for i in range(n)], anchor=[(i + 1) % 2 for i in range(n)],
+                          frame=[1 + i % 2 for i in range(n)], geom=[A.GEOM_ORDER[i % 5] for i in range(n)],
+                          jattr=jattr, sections=sections)
     m = lib.load_xml(xml)
     d = lib.make_data(m)
     nv = m.nv
     qs = A.qpos_lattice(m, limit=12)
     vs = A.qvel_lattice(nv, units=False)
     key = (par, js, variant)
+    if simple:
+        part.add("models_with_simple_bodies", int(np.any(np.array(m.body_simple) > 0)))
+        part.add("dofs_with_simplenum", int(np.sum(np.array(m.dof_simplenum) > 0)))
     branching = len(set(par)) < len(par) and nv >= 3
     for qi, q in enumerate(qs):
         for vi, v in enumerate(vs):
@@ -94,11 +106,11 @@ def check_model(lib, part, par, js, variant):
                 pat = pat | pat.T
                 Mref_inpattern = Mref + np.where(pat, Mten, 0.0)
                 Mref = Mref + Mten
-            ctx = "parents=%s joints=%s armature=%s tendon=%s state=(%d,%d)" % (par, js, arm, tenarm, qi, vi)
+            ctx = "parents=%s joints=%s armature=%s tendon=%s simple=%s state=(%d,%d)" % (par, js, arm, tenarm, simple, qi, vi)
             rp = {"xml": xml, "qpos": q, "qvel": v}
 
             def bad(name, err):
-                part.violation("%s parents=%s joints=%s arm=%s ten=%s" % (name, par, js, arm, tenarm),
+                part.violation("%s parents=%s joints=%s arm=%s ten=%s%s" % (name, par, js, arm, tenarm, " simple=%d" % simple if simple else ""),
                                "%s: rel err %.3g at %s" % (name, err, ctx), rp)
             e = relerr(M, M.T)
             if e > TOL:
@@ -174,12 +186,13 @@ def run(ctx):
     menu = None if not ctx.thorough else ["none", "hinge", "slide", "ball", "free", "hinge2"]
     items = []
     for par, js in models(nmax, menu):
-        for variant in ((0, 0), (1, 0), (1, 1)):
+        for variant in ((0, 0), (1, 0), (1, 1), (1, 0, 1), (0, 0, 2)):
             items.append((par, js, variant))
     core.pmap(ctx, _chunk, items, nchunks=64)
     ctx.extra["models"] = len(items)
     ctx.rule = ("all rooted ordered forests with <=%d bodies x full product of the joint menu %s per body (free only on roots) x "
-                "{no armature, joint armature, joint+tendon armature}; per model a covering lattice of <=12 configurations "
+                "{no armature, per-body distinct joint armature, joint+tendon armature, 'simple' layout (inertial frame = body "
+                "frame, joints at the origin, axis-aligned: body_simple / dof_simplenum fast paths) with and without armature}; per model a covering lattice of <=12 configurations "
                 "(scalars {0,.37,-1.3}, quaternions {id, 90deg, (.5,.5,.5,.5), pi-1e-9}) x {zero, mixed} velocity. "
                 "non-trivial = (model,state) with a branching tree and nv>=3, or nv>=4" % (nmax, menu or list(A.JOINTS)))
     ctx.assumptions = ["reference built from mj_jacBodyCom and compiled body_mass/body_inertia (C07/C35 cover those)",
@@ -191,13 +204,13 @@ def replay(ctx, path):
     import json as _json
     import re as _re
     rec = _json.load(open(path))
-    mm = _re.search(r"parents=(\(.*?\)) joints=(\(.*?\)) arm(?:ature)?=(\d) ten(?:don)?=(\d)", rec["key"] + " " + rec["what"])
+    mm = _re.search(r"parents=(\(.*?\)) joints=(\(.*?\)) arm(?:ature)?=(\d) ten(?:don)?=(\d)(?: simple=(\d))?", rec["key"] + " " + rec["what"])
     if not mm:
         print("cannot parse the case from", path)
         return 2
     par, js = eval(mm.group(1)), eval(mm.group(2))
     part = core.Part()
-    check_model(mj.load(), part, par, js, (int(mm.group(3)), int(mm.group(4))))
+    check_model(mj.load(), part, par, js, (int(mm.group(3)), int(mm.group(4)), int(mm.group(5) or 0)))
     for v in part["violations"]:
         print("VIOLATION", v["key"], "|", v["what"])
     return 1 if part["violations"] else 0
